@@ -67,7 +67,8 @@ def wf_node(nd):
         return (len(nd) == 5 and isinstance(nd[1], list) and all(wf_node(c) for c in nd[1]) and _opt_str(nd[2]) and _opt_str(nd[3])
                 and isinstance(nd[4], bool))
     if k in ("quasi", "unquote", "splice"):
-        return len(nd) == 2 and wf_node(nd[1])
+        # a splice may carry its head's spelling: unquote_splice is the same name as unquote-splice (one identifier)
+        return (len(nd) == 2 or (len(nd) == 3 and k == "splice" and nd[2] in ("unquote-splice", "unquote_splice"))) and wf_node(nd[1])
     return False
 
 
@@ -230,7 +231,9 @@ class Ref:
                 self.feat.add("quasi-nesting:%d" % (qn + 1))
             return [M.Expression([M.Symbol("quasiquote")] + self.expand(nd[1], level + 1, "quasi", qn + 1))]
         if k in ("unquote", "splice"):
-            head = "unquote" if k == "unquote" else "unquote-splice"
+            head = "unquote" if k == "unquote" else (nd[2] if len(nd) > 2 else "unquote-splice")
+            if len(nd) > 2 and nd[2] != "unquote-splice":
+                getattr(self, "feat", set()).add("splice-head-spelled:" + nd[2])
             if level == 0:
                 v = self.eval_form(nd[1])
                 self.feat.add("live-under-quasi:%d" % qn)
